@@ -627,6 +627,9 @@ class PenlogReader:
         offset: int = 0,
         reverse: bool = False,
     ) -> Iterator[PenlogRecord]:
+        if offset < 0:
+            # Negative offsets count from the end of the log.
+            offset = max(len(self) + offset, 0)
         self.seek_to_record(offset)
         if reverse is False:
             while True:
@@ -639,6 +642,8 @@ class PenlogReader:
                 self.readline()
                 if self.current_priority <= priority:
                     yield self.current_record
+                if self._current_record_index <= 0:
+                    break
                 try:
                     self.seek_to_previous_record()
                 except IndexError:
